@@ -15,6 +15,8 @@ import (
 	"encoding/json"
 	"fmt"
 	"io"
+	"os"
+	"path/filepath"
 	"sort"
 	"strconv"
 	"strings"
@@ -145,7 +147,8 @@ func runC18Hist(toks []string) string {
 //	the process command of resolve.go (same options, same JSON, a dump after every P) with read operations between
 //	the runs:  T = yang.ToEntry on every module and submodule of the set (key order), followed by a Print of the
 //	           entry and the namespace / instantiating-module / read-only queries on its children;
-//	           C = ms.ClearEntryCache();
+//	           C = ms.ClearEntryCache();  D<i> = text i is written as a file <name i> into a directory of ms.Path, where
+//	           FindModule finds it when a Process meets an import/include of a module that is not loaded;
 //	and G<namehex> = ms.GetModule(name), which is a run: its errors and, when there are none, the full dump of the
 //	set are appended to "runs" exactly as for P.
 //	Reads produce no output: only what they leave behind matters.
@@ -162,8 +165,25 @@ func runC18Proc(toks []string) string {
 	ms.ParseOptions.IgnoreSubmoduleCircularDependencies = strings.Contains(opts, "c")
 	ms.ParseOptions.DeviateOptions.IgnoreDeviateNotSupported = strings.Contains(opts, "n")
 	ms.ParseOptions.StoreUses = strings.Contains(opts, "u")
-	out := &procOut{Loads: []string{}, Runs: []*runDump{}}
+	out := &c18Out{Loads: []string{}, Runs: []*runDump{}, Loaded: [][]string{}}
 	read := c18read
+	pathDir := ""
+	defer func() {
+		if pathDir != "" {
+			os.RemoveAll(pathDir)
+		}
+	}()
+	loaded := func() {
+		l := []string{}
+		for _, m := range ms.Modules {
+			l = append(l, yang.Source(m))
+		}
+		for _, m := range ms.SubModules {
+			l = append(l, yang.Source(m))
+		}
+		sort.Strings(l)
+		out.Loaded = append(out.Loaded, l)
+	}
 	for _, op := range strings.Split(ops, ",") {
 		switch {
 		case op == "P":
@@ -188,6 +208,7 @@ func runC18Proc(toks []string) string {
 				}
 			}
 			out.Runs = append(out.Runs, run)
+			loaded()
 		case op == "T":
 			for _, mm := range []map[string]*yang.Module{ms.Modules, ms.SubModules} {
 				var keys []string
@@ -198,6 +219,20 @@ func runC18Proc(toks []string) string {
 				for _, k := range keys {
 					read(mm[k])
 				}
+			}
+		case strings.HasPrefix(op, "D"):
+			// text i becomes available as a file of the search path (Process may read it through FindModule)
+			i, _ := strconv.Atoi(op[1:])
+			if pathDir == "" {
+				d, err := os.MkdirTemp("", "c18path")
+				if err != nil {
+					return "BROKEN tempdir: " + err.Error()
+				}
+				pathDir = d
+				ms.AddPath(pathDir)
+			}
+			if err := os.WriteFile(filepath.Join(pathDir, filepath.Base(names[i])), []byte(texts[i]), 0o644); err != nil {
+				return "BROKEN write: " + err.Error()
 			}
 		case op == "C":
 			ms.ClearEntryCache()
@@ -222,6 +257,7 @@ func runC18Proc(toks []string) string {
 				dumpModules(ms, run, strings.Contains(opts, "f"))
 			}
 			out.Runs = append(out.Runs, run)
+			loaded()
 		case strings.HasPrefix(op, "L"):
 			i, _ := strconv.Atoi(op[1:])
 			if err := ms.Parse(texts[i], names[i]); err != nil {
@@ -235,7 +271,20 @@ func runC18Proc(toks []string) string {
 	if err != nil {
 		return "BROKEN json: " + err.Error()
 	}
-	return string(b)
+	js := string(b)
+	if pathDir != "" {
+		// files read from the search path are named by their base name, as the texts loaded with Parse are
+		js = strings.ReplaceAll(js, pathDir+string(filepath.Separator), "")
+	}
+	return js
+}
+
+// c18Out is procOut plus, per run, the source positions of all modules and submodules of the set after it (which
+// tells what Process has read from the search path by itself).
+type c18Out struct {
+	Loads  []string   `json:"loads"`
+	Runs   []*runDump `json:"runs"`
+	Loaded [][]string `json:"loaded"`
 }
 
 func init() {
